@@ -144,6 +144,13 @@ def batches(tier, seed):
                   '_s': rng.randrange(1 << 30)})
         cases.append(c)
     yield 'cache-histories-and-key-pairs', cases
+    cases = []
+    for i in range(n_cache // 2):
+        c = matcase.gen(rng, max_src=2, max_tgt=3, overrides=rng.random() < 0.3)
+        c.pop('family', None)
+        c.update({'_mode': 'interrupt', '_i': i, '_s': rng.randrange(1 << 30)})
+        cases.append(c)
+    yield 'interrupted-and-abandoned-iterations', cases
 
 
 # ------------------------------------------------------------------ helpers
@@ -273,6 +280,8 @@ def run_case(case):
         return _run_best(case)
     if mode == 'cache':
         return _run_cache(case)
+    if mode == 'interrupt':
+        return run_interrupted(case)
     return _run_select(case)
 
 
@@ -441,6 +450,66 @@ except Exception as e:
 '''
 
 
+def run_interrupted(case):
+    """an iteration over the connection-count tuples that is interrupted (the exception the time limiter injects is thrown into
+    the generator) or abandoned by its consumer after k elements must leave nothing behind that changes what later calls with
+    the same settings -- from new objects, with the cache enabled -- return"""
+    import numpy as np
+    from adsg_core.optimization.assign_enc.matrix import AggregateAssignmentMatrixGenerator as Gen
+    c = _core(case)
+    tags = ['mode:interrupt']
+    tmp = tempfile.mkdtemp(prefix='c12intr', dir=os.environ.get('VERIF_SCRATCH') or None)
+    old = os.environ.get('XDG_CACHE_HOME')
+    os.environ['XDG_CACHE_HOME'] = tmp
+    rng = random.Random(case.get('_s', 0))
+
+    def canon(it):
+        return [(tuple(int(v) for v in a), tuple(int(v) for v in b), hash(e)) for a, b, e in it]
+    try:
+        s, pats = matcase.build(c)
+        ref = canon(Gen(s).iter_n_sources_targets(cache=False))
+        try:
+            ref_n = int(Gen(s).count_all_matrices())
+        except ValueError:          # no tuple at all: nothing to count
+            ref_n = None
+        Gen(s).reset_agg_matrix_cache()
+        for f in os.listdir(tmp):
+            shutil.rmtree(os.path.join(tmp, f), ignore_errors=True)
+        if len(ref) < 2:
+            return {'impl': {'mode': 'interrupt'}, 'nontrivial': False, 'tags': tags + ['tuples:<2'], 'queries': []}
+        how = rng.choice(['throw', 'throw', 'close', 'break'])
+        k = rng.randrange(1, len(ref))
+        tags += ['how:' + how, 'tuples:%s' % ('2-5' if len(ref) <= 5 else '6+')]
+        g = Gen(s).iter_n_sources_targets(cache=False)
+        for _ in range(k):
+            next(g)
+        if how == 'throw':
+            try:
+                g.throw(KeyboardInterrupt)
+                return {'fail': {'clause': 'interrupt-swallowed-by-iteration', 'detail': 'the generator went on after KeyboardInterrupt'}, 'tags': tags}
+            except KeyboardInterrupt:
+                pass
+            except StopIteration:
+                return {'fail': {'clause': 'interrupt-swallowed-by-iteration', 'detail': 'the generator ended normally after KeyboardInterrupt'}, 'tags': tags}
+        else:
+            g.close()
+        s2, _ = matcase.build(c)
+        later = canon(Gen(s2).iter_n_sources_targets())
+        if later != ref:
+            return {'fail': {'clause': 'later-result-changed-by-interrupted-run', 'detail': 'after %s at element %d of %d: a new generator lists %d tuples (first difference at %s)' % (
+                how, k, len(ref), len(later), next((i for i, (x, y) in enumerate(zip(later, ref)) if x != y), min(len(later), len(ref))))}, 'tags': tags}
+        n2 = int(Gen(matcase.build(c)[0]).count_all_matrices()) if ref_n is not None else None
+        if n2 != ref_n:
+            return {'fail': {'clause': 'later-result-changed-by-interrupted-run', 'detail': 'count_all_matrices %d, before the interrupted run %d' % (n2, ref_n)}, 'tags': tags}
+        return {'impl': {'mode': 'interrupt'}, 'nontrivial': True, 'tags': tags, 'queries': []}
+    finally:
+        if old is None:
+            os.environ.pop('XDG_CACHE_HOME', None)
+        else:
+            os.environ['XDG_CACHE_HOME'] = old
+        shutil.rmtree(tmp, ignore_errors=True)
+
+
 def _run_cache(case):
     # time limits are switched off here (run_timeout replaced by a direct call): with binding limits a fresh selection is not a
     # function of the settings, so "equals a fresh computation" could not be decided
@@ -563,6 +632,8 @@ def _run_cache_inner(case):
 # ------------------------------------------------------------------ compare
 def compare(case, r, ms):
     im = r['impl']
+    if im['mode'] == 'interrupt':
+        return None
     if im['mode'] == 'best':
         for k, (o, m) in enumerate(zip(im['outs'], ms)):
             if o != m:
